@@ -48,7 +48,7 @@ def seeded():
     for m in metas:
         first_c = m.get('first_caught_by', [])
         rows.append(f"| {m['name']} | {m['property']} | {esc(m.get('needs_to_manifest', ''))} | {' '.join(first_c) or '-'} | "
-                    f"{' '.join(m.get('caught_by', [])) or '**missed**'} |")
+                    f"{' '.join(m.get('caught_by', [])) or ('(out of scope, see meta.json)' if m.get('out_of_scope') else '**missed**')} |")
     return '\n'.join(rows)
 
 
